@@ -14,6 +14,7 @@ import (
 	logging "github.com/ipfs/go-log/v2"
 	"github.com/ipld/go-storethehash/store/freelist"
 	"github.com/ipld/go-storethehash/store/types"
+	"github.com/ipld/go-storethehash/store/verifhook"
 )
 
 var log = logging.Logger("storethehash/mhprimary")
@@ -316,6 +317,7 @@ func (gc *primaryGC) reapRecords(fileNum uint32, lowUsePercent int64) (bool, err
 				return false, fmt.Errorf("cannot put new primary record: %w", err)
 			}
 			// Update the index with the new primary location.
+			verifhook.Yield("gc.reap.beforeUpdateIndex")
 			if err = gc.updateIndex(indexKey, fileOffset); err != nil {
 				log.Errorw("Cannot update index with new record location", "err", err)
 				// Failed to index the moved record, most likely because the
